@@ -52,6 +52,10 @@ Print Assumptions C15_fuzzy_conservative_refuted.
 (* zone-resolution decision table: validate + _build_tzaware = the documented cascade spec_zone
    (tzinfos mapping/callable -> local zone names -> UTC designators and zero offsets -> fixed
    offset -> unknown abbreviation: naive + warning -> naive) on the (tzname, tzoffset) the scan found *)
+(* SCOPE: posix_form = false.  The 'GMT+h' clause of spec_zone (posix_form = true: the sign is reversed and a UTC
+   alias is dropped) is implemented by the scan, which rewrites the sign token, not by validate/_build_tzaware; it is
+   related to the model only by C15_gmt_plus_h_is_behind below (the single text "10:00 GMT+h", h = 1..23) and
+   otherwise by the differential zone stream. *)
 Theorem C15_tz_cascade : forall o cy r0 r,
   validate cy r0 = Ok r -> r_tzname r0 <> Some [] ->
   build_tzaware o r =
@@ -84,13 +88,19 @@ Theorem C15_build_naive_refines_spec_fill : forall r d x,
 Proof. exact build_naive_refines_spec_fill. Qed.
 Print Assumptions C15_build_naive_refines_spec_fill.
 
-(* fuzzy_with_tokens: the skipped strings, concatenated, are the tokens at strictly increasing
-   positions of the token list: skipped text is returned in order of appearance *)
+(* fuzzy_with_tokens: the skipped strings are, one by one and in order of appearance, the texts of the
+   maximal runs of consecutive skipped positions of the REAL token list: l' is the lexer's output
+   `timelex s` except that a sign token after a zone name may have been reversed in place by the run
+   (`GMT+3`: l[i+1] = '-'), flip_rel; idxs are strictly increasing valid positions of l'.
+   (An earlier version quantified the token list existentially and was vacuous; audit 02 Oct.) *)
+From V Require Import parse.SkipThm2.
+
 Theorem C15_skipped_tokens_in_order : forall fz yf df cur s r toks,
   50 <= cur -> parse_res fz true yf df cur s = Ok (Some (r, toks)) ->
-  exists (l : list str) (idxs : list nat),
-    asc 0 idxs /\ concat toks = concat (map (fun k => nth k l []) idxs).
-Proof. exact skipped_tokens_in_order_lemma. Qed.
+  exists (l' : list str) (idxs : list nat),
+    flip_rel (timelex s) l' /\ asc 0 idxs /\ (forall k, In k idxs -> (k < length l')%nat) /\
+    toks = map (run_text l') (runs idxs).
+Proof. exact skipped_tokens_in_order2_lemma. Qed.
 Print Assumptions C15_skipped_tokens_in_order.
 
 (* "any text accepted without fuzzy yields the same result with fuzzy" -- proved for ALL texts and
